@@ -15,6 +15,15 @@ def span (p : Char → Bool) : Str → Str × Str
 
 /-- characters of a tag name after the first letter -/
 def isTagCh (c : Char) : Bool := isAlnum c || c = '-' || c = '_' || c = ':' || c = '.'
+/-- What ends the name of a start tag: html.parser reads `[a-zA-Z][^\t\n\r\f />\x00]*` — an *explicit* set, not `\s`
+    (`<div\x0bid=x>` and `<div\xa0id=x>` are start tags named `div\x0bid=x`, `div\xa0id=x`).  `\x00` is outside the
+    sub-language.  Everywhere else inside a tag the patterns say `\s`, which for a `str` pattern is `str.isspace()` = `isWs`
+    (`commentclose`, `attrfind_tolerant`, `endtagfind`, the `</\s*script\s*>` of CDATA mode). -/
+def isTagEnd (c : Char) : Bool := c = ' ' || c = '\t' || c = '\n' || c = '\r' || c = '\x0c' || c = '/' || c = '>'
+/-- does the text after the name characters of a start tag begin with a character that ends the name? -/
+def tagNameEnds : Str → Bool
+  | [] => false
+  | c :: _ => isTagEnd c
 /-- characters of an attribute name -/
 def isAttrCh (c : Char) : Bool :=
   !(isWs c) && c ≠ '/' && c ≠ '>' && c ≠ '=' && c ≠ '"' && c ≠ '\'' && c ≠ '<' && c ≠ '&' && c ≠ '`' && c ≠ '\x00'
@@ -141,6 +150,7 @@ def lexOne (fuel : Nat) (s : Str) : Option (List Token × Str) :=
       if isAlpha c then
         -- start tag
         let nr := span isTagCh (c :: r1)
+        if !tagNameEnds nr.2 then none else     -- any other character would be part of the name: outside the sub-language
         match lexAttrs fuel nr.2 with
         | none => none
         | some (attrs, sc, rest) =>
